@@ -2,6 +2,7 @@
    C02_QHost / C02_SetHostNone / C02_SetPathNoAuth:
      quirks set_hostname, quirks set_host, set_host(None), quirks set_pathname      on every Canon record,
      set_path (C02_SetPathOpaque for opaque paths)                                  on every Canon record,
+     path_segments_mut sessions                                                     on opaque paths only (refused),
    each outside the known step classes of the corrected quantifier (known_step3 = known_step2 + Known_F_C02_10).
    ReachC4: every record of such a history is Canon, hence a fixpoint of re-parsing; ReachC4 is inside Reachable4, the
    quantifier of C02_statement4. *)
@@ -24,6 +25,7 @@ Open Scope list_scope.
 Definition canon_op4 (u : url) (o : op) : bool :=
   match o with
   | OQHostname _ | OQHost _ | OSetHost None | OQPathname _ | OSetPath _ => true
+  | OPathSegments _ => is_cbb u                       (* path_segments_mut() is refused on an opaque path *)
   | _ => canon_op3 u o
   end.
 
@@ -52,11 +54,11 @@ Qed.
 
 Lemma canon_op3_4 u o : canon_op3 u o = true -> canon_op4 u o = true.
 Proof.
-  destruct o; try (intros H; exact H); try reflexivity.
+  destruct o; try (intros H; exact H); try reflexivity; try discriminate.
   - destruct h; reflexivity.
 Qed.
 
-Lemma cbb_true_is_cbb u : cannot_be_a_base u = Some true -> is_cbb u = true.
+Lemma cbb_is_cbb u b : cannot_be_a_base u = Some b -> is_cbb u = b.
 Proof.
   unfold cannot_be_a_base, u_slice_from, slice_from_o, is_cbb. destruct (scheme_end u + 1 <=? nlen (ser u)); [|discriminate].
   cbn [bindo]. intros H. injection H as H'. exact H'.
@@ -115,6 +117,15 @@ Proof using HOK HNE HRT HAb HIP.
   + exact (q_set_pathname_Canon dbg hp hpo hd u s u' IH Ht Ha Ho Hb).
 Qed.
 
+Lemma Canon_cbb_some u : Canon hp hpo hd u -> exists b, cannot_be_a_base u = Some b.
+Proof using HRT.
+  intros IH. destruct IH as [sch P q f K | sch segs last q f K | sch ui h pt p q f K | sch ui h pt p q f K Kp].
+  - exists true. exact (opaque_url_cbb sch P q f K).
+  - exists false. exact (proj1 (proj2 (noauth_url_wf sch segs last q f K))).
+  - exists false. exact (proj2 (auth_url_wf hp hpo hd HRT _ _ _ _ _ _ _ _ K)).
+  - exists false. exact (proj2 (auth_url_wf hp hpo hd HRT _ _ _ _ _ _ _ _ K)).
+Qed.
+
 (* one step with an operation of canon_op4 *)
 Lemma canon_op4_step u o u' : Canon hp hpo hd u -> canon_op4 u o = true -> op_args_ok o ->
   known_step3 dbg hp hpo hd u o = false -> apply_op dbg hp hpo hd u o = Some u' -> nlen (ser u') <= U32_MAX_P ->
@@ -133,18 +144,15 @@ Proof using HOK HNE HRT HAb HIP.
       * rewrite (proj2 (auth_url_wf hp hpo hd HRT _ _ _ _ _ _ _ _ K)) in Hcb. discriminate Hcb.
       * rewrite (proj2 (auth_url_wf hp hpo hd HRT _ _ _ _ _ _ _ _ K)) in Hcb. discriminate Hcb.
     + exact (set_path_Canon_hier dbg hp hpo hd u p u' IH Hcb Ha Hk Ho Hb).
-    + exfalso. clear - Hcb IH HRT. destruct (Canon_classes hp hpo hd u IH) as [Hc | [Hm | (st & sch & ui & pt & Hh)]].
-      * congruence.
-      * destruct IH as [sch P q f K | sch segs last q f K | sch ui h pt p q f K | sch ui h pt p q f K Kp].
-        -- rewrite (opaque_url_cbb sch P q f K) in Hcb. discriminate Hcb.
-        -- rewrite (proj1 (proj2 (noauth_url_wf sch segs last q f K))) in Hcb. discriminate Hcb.
-        -- rewrite (proj2 (auth_url_wf hp hpo hd HRT _ _ _ _ _ _ _ _ K)) in Hcb. discriminate Hcb.
-        -- rewrite (proj2 (auth_url_wf hp hpo hd HRT _ _ _ _ _ _ _ _ K)) in Hcb. discriminate Hcb.
-      * destruct (hostable_facts hp hpo hd HRT u st sch ui pt Hh) as (_ & _ & _ & Hc & _). congruence.
+    + exfalso. destruct (Canon_cbb_some u IH) as [b Eb]. congruence.
   - (* set_host *)
     destruct h as [x|]; [exact (G3 eq_refl)|].
     destruct (option_map_fst_some _ _ Ho) as [s Es].
     exact (set_host_none_Canon dbg hp hpo hd HRT u u' s IH Hk Es).
+  - (* path_segments_mut on an opaque path: refused, the record is unchanged *)
+    destruct (Canon_cbb_some u IH) as [b Eb]. rewrite (cbb_is_cbb u b Eb) in Ht. subst b.
+    unfold path_segments_session, path_segments_mut in Ho. rewrite Eb in Ho. cbn [bindo option_map fst] in Ho.
+    inversion Ho; subst u'. exact IH.
   - (* quirks host *)
     destruct (option_map_fst_some _ _ Ho) as [s0 Es].
     exact (q_set_host_Canon dbg hp hpo hd HRT HAb u s u' s0 (proj1 HNE) IH Hk3 Es Hb).
